@@ -551,6 +551,17 @@ func TestC11(t *testing.T) {
 		for i := 0; i < 4; i++ {
 			toks := gram.GenInput(t, g)
 			c := &gramCase{G: g, Input: gram.Render(t, g, toks, "r"), AllowTrailing: rapid.IntRange(0, 4).Draw(t, "trailing") == 0}
+			if g.IsElided("Comment") && !g.NamesElided() && rapid.IntRange(0, 19).Draw(t, "longrun") == 0 {
+				// a licence header: hundreds of elided tokens (comment, blank, comment, ...) in front of the first node,
+				// or after the first token
+				run := strings.Repeat("#c# ", rapid.SampledFrom([]int{130, 200, 383}).Draw(t, "runlen"))
+				if i := strings.IndexAny(c.Input, " \n\t"); i > 0 && rapid.Bool().Draw(t, "runinside") {
+					c.Input = c.Input[:i] + " " + run + c.Input[i:]
+				} else {
+					c.Input = run + c.Input
+				}
+				r.Count("case_with_a_run_of_hundreds_of_elided_tokens")
+			}
 			report(t, r, checkC11(c, b, r), c)
 		}
 	})
